@@ -66,7 +66,7 @@ struct Outcome {
     digest: Vec<u8>,
 }
 
-trait Hk: Digest + Default {
+trait Hk: Digest + Default + digest::FixedOutput + digest::Reset + digest::Update {
     fn set(&mut self, cv: &[u8], datalen: usize, buffered: &[u8]);
     fn get(&self) -> (Vec<u8>, usize, Vec<u8>, usize);
 }
@@ -93,6 +93,21 @@ impl_hk!(Jh512);
 fn run_typed<H: Hk>(inp: &Input) -> Outcome {
     let r = catch_unwind(AssertUnwindSafe(|| {
         let mut h = H::default();
+        // half of the plain cases reuse an object that has already produced a digest in place
+        // (FixedOutput::finalize_fixed_reset) or absorbed data and was reset
+        if inp.hook.is_none() && inp.prestream == 0 {
+            match (inp.msg.len() + inp.split) % 4 {
+                2 => {
+                    digest::Update::update(&mut h, &inp.msg[..inp.msg.len().min(5)]);
+                    let _ = digest::FixedOutput::finalize_fixed_reset(&mut h);
+                }
+                3 => {
+                    digest::Update::update(&mut h, &[0x5au8; 100][..]);
+                    digest::Reset::reset(&mut h);
+                }
+                _ => {}
+            }
+        }
         if let Some(hk) = &inp.hook {
             h.set(&hk.cv, hk.datalen as usize, &hk.buffered);
         }
